@@ -55,9 +55,18 @@ def r_u32(r):
     return r.choice(U32_CORNERS) if x < 0.5 else r.getrandbits(32)
 
 
+DICT_U64 = sorted({v for v in DICT_INTS if v >= 1 << 32} | {(v << 32) & 0xffffffffffffffff for v in DICT_U32} | set(DICT_U32))
+# well-known instants in the 32.32 NTP format (the Unix epoch, the start of NTP era 1 minus one, 2036)
+NTP_SPECIAL = [0x83AA7E8000000000, 0x83AA7E80FFFFFFFF, 0x83AA7E7FFFFFFFFF, 0xFFFFFFFF00000000, 0xFFFFFFFFFFFFFFFE, 0x7FFFFFFFFFFFFFFF,
+               0x0000000100000000, 0xBC17C20000000000, 0xE000000000000000]
+
+
 def r_u64(r):
     c = [0, 1, 0xffffffff, 0x100000000, 0xffffffffffffffff, 0x8000000000000000, 0x0102030405060708]
-    return r.choice(c) if r.random() < 0.4 else r.getrandbits(64)
+    x = r.random()
+    if x < 0.1 and DICT_U64: return r.choice(DICT_U64)
+    if x < 0.2: return r.choice(NTP_SPECIAL)
+    return r.choice(c) if x < 0.5 else r.getrandbits(64)
 
 
 def r_u16(r):
@@ -80,7 +89,7 @@ def r_padding(r, legal_only=False):
 
 
 SPECIAL_HEADS = ["\ufeff", "\ufeff", "\ufeff", "\U0001f600", " ", "\t", "@", "\u00a0", "\u200b", "\ufffd", "\u0000", "\ufeff\ufeff", "\r\n"]
-SPECIAL_TAILS = ["\ufeff", "\U0001f600", " ", "\n", "@", "\u0000", ".", "\u200b"]
+SPECIAL_TAILS = ["\ufeff", "\U0001f600", " ", "\n", "\r", "\r\n", "\n", "\t", "@", "\u0000", ".", "\u200b", "/", "\\"]
 
 
 def r_text(r, n):
@@ -461,6 +470,10 @@ def r_item(r):
     else:
         vl = r.choice([256, 257, 300])
     it = {"type": ty, "value": r_text(r, vl)}
+    if 2 <= vl <= 255 and r.random() < 0.08:
+        # what a line read from a file or a C string carries at its end (a trimming constructor would drop it)
+        t = r.choice([b"\n", b"\r\n", b"\r", b" ", b"\0", b"\t"])
+        if len(t) < vl: it["value"] = _r_text(r, vl - len(t)) + t
     if r.random() < 0.1:
         it["prefix"] = r_bytes(r, r.randint(0, 5))   # ignored for non-PRIV
     return it
@@ -583,8 +596,14 @@ def cfg_fb(r, k=None, fci_kind=None, allow_wrong=True):
     if k is None:
         k = natural if (not allow_wrong or r.random() < 0.9) else ("pfb" if natural == "tfb" else "tfb")
     snd = r_u32(r)
+    med = snd if r.random() < 0.08 else r_u32(r)
+    # the header SSRCs equal to an SSRC inside the FCI (FIR entries name media senders too)
+    if fci["k"] == "fir" and fci["entries"] and r.random() < 0.2:
+        e = r.choice(fci["entries"])[0]
+        if r.random() < 0.7: med = e
+        else: snd = e
     return {"k": k, "mode": r.choice(["borrowed", "owned"]), "fci": fci, "padding": r_padding(r),
-            "sender": snd, "media": snd if r.random() < 0.08 else r_u32(r)}
+            "sender": snd, "media": med}
 
 
 CUSTOM_PTS = [0, 192, 199, 200, 204, 207, 208, 242, 255]
@@ -640,6 +659,13 @@ def cfg_compound(r, depth=0):
             if i < n - 1 and r.random() < 0.9:
                 tgt["padding"] = 0
         ms.append(m)
+    # a padded non-last member whose padding equals the last member's (a rule written as a comparison of
+    # amounts instead of positions would let it through)
+    leafs = [(x["inner"] if x["k"] == "pb" else x) for x in ms if x["k"] != "compound" and not x.get("unit")]
+    if len(leafs) >= 2 and r.random() < 0.12:
+        p = r.choice([4, 8, 12, 252])
+        leafs[-1]["padding"] = p
+        leafs[r.randrange(len(leafs) - 1)]["padding"] = p
     return {"k": "compound", "members": ms}
 
 
